@@ -152,3 +152,6 @@ trimmed in raw strings.
         }
     }
 }
+
+#[cfg(kani)]
+include!(concat!(env!("TOML_VERIF_KANI"), "/toml_edit/parser_value.rs"));
